@@ -397,6 +397,9 @@ class Unit:
             return seg
         for (ln, tag) in spec_lines:
             seg.insert(sh.sig_end, ln, tag)
+        for at in it.get("attrs", []):
+            mt0 = re.search(r"\S", text)
+            seg.insert(mt0.start(), "#[%s]" % at, ("gen", "attr"))
         if not is_twin:
             self.obligations.append(Obligation(pre + "#body", "B", fn_id, it.get("body_alarm", []),
                                                "safety of every operation, callee preconditions and spliced assertions in " + name))
